@@ -110,5 +110,9 @@ SPECS["C43"] = dict(
 import os as _os, glob as _glob
 for _f in sorted(_glob.glob(_os.path.join(_os.path.dirname(_os.path.abspath(__file__)), "specs.d", "C*.py"))):
     _ns = dict(SBUF=SBUF, TOK=TOK)
-    exec(compile(open(_f).read(), _f, "exec"), _ns)
-    SPECS[_os.path.basename(_f)[:-3]] = _ns["SPEC"]
+    try:
+        exec(compile(open(_f).read(), _f, "exec"), _ns)
+        SPECS[_os.path.basename(_f)[:-3]] = _ns["SPEC"]
+    except Exception as _e:   # a broken spec file must not take the other checks down with it
+        import sys as _sys
+        print("specs: cannot load %s: %s" % (_f, _e), file=_sys.stderr)
